@@ -12,16 +12,24 @@ META = {
                  "both locators and both generate_require; model tied to the Rust code by exhaustive differential runs "
                  "over every subset of the candidate files, evaluated inside Coq (vm_compute); documented resolution and "
                  "target preservation re-checked on the Rust results by an oracle that does not use the model",
-    "level_text": "Machine-checked theorems (Coq 8.16 kernel): the candidate list is the documented list, the locators return "
-                  "the first existing candidate from the documented head, and convert_require (path<->luau, no aliases, "
-                  "working-directory-relative sources) keeps the target whenever the target is the first existing candidate "
-                  "of its stripped form; the full statement is refuted in the model and on the code (recorded findings). "
-                  "Every run compares the model with the compiled locators / generate_require on all subsets of the "
-                  "candidate files x requiring files x require strings x configurations.",
-    "level_note": "Trusted: Coq kernel + vm_compute; the transcription of std::path and pathdiff semantics into "
-                  "Model/Paths.v (tied by the correspondence only); the python oracle of the documented order; harness and "
-                  "hex transport. Aliases, .luaurc and absolute paths are modelled and compared but are outside the "
-                  "conversion theorem (they are inside the resolution theorems).",
+    "level_text": "Machine-checked theorems (Coq 8.16 kernel, no axioms): the candidate list equals the documented list "
+                  "(alone when the path already ends in .lua/.luau); both locators return exactly the first existing "
+                  "candidate, from a head that is the requiring file's directory (path mode), its parent for module-folder "
+                  "files / @self (luau mode), the source/alias location, or the absolute path; the written require argument "
+                  "is read back unchanged; convert_require towards the path or the luau mode keeps the target for every "
+                  "requiring file and target below the working directory when no alias is configured, provided the target "
+                  "is the first existing candidate of its stripped form (for all directory depths, names and file systems), "
+                  "and on a bounded universe with aliases and absolute targets by exhaustive evaluation. The unrestricted "
+                  "statement is refuted in the model and on the code (seven recorded finding classes). Every run compares "
+                  "the model with the compiled locators / generate_require on all subsets of the candidate files x "
+                  "requiring files x require strings x configurations, and re-checks documented resolution and target "
+                  "preservation on the Rust results without using the model.",
+    "level_note": "Trusted: Coq kernel + vm_compute; the transcription of std::path (unix) and pathdiff 0.2.3 into "
+                  "Model/Paths.v (tied by the correspondence only); the python oracle of the documented behaviour; harness, "
+                  "hooks and hex transport. Aliases, .luaurc and absolute paths are inside the resolution theorems and the "
+                  "correspondence, but outside the unbounded conversion theorem (bounded theorem only). Not covered: roblox "
+                  "mode, windows prefixes, non-UTF-8 names, Source::FileSystem, the HashMap-order dependent choice between "
+                  "two aliases of the same directory.",
     "trusted_base": ["Coq 8.16.1 kernel, vm_compute", "Model/Paths.v, Model/Require.v (transcription of std::path, pathdiff 0.2.3, darklua)",
                      "harness/crates/c15 + src/verif_hooks.rs::c15 + hex transport", "vlib/c15.py documented-order oracle"],
     "allowed_axioms": [],
